@@ -118,6 +118,11 @@ func (c *ctl) handler(point string) {
 	<-p.release
 }
 
+// lockWait: the goroutine waits for a mutex (any flavour; the wording of the wait reason is the runtime's)
+func lockWait(state string) bool {
+	return strings.Contains(state, "Mutex") || state == "semacquire" || state == "sync.Cond.Wait"
+}
+
 func (c *ctl) releaseG(gid int64) bool {
 	c.mu.Lock()
 	p := c.parked[gid]
@@ -133,15 +138,8 @@ func (c *ctl) releaseG(gid int64) bool {
 // status computes the observation; stable=false if some goroutine is still on its way.
 func (c *ctl) status() (obs string, stable bool) {
 	states := allStates()
-	var watchers []gor
-	for _, g := range census() {
-		for _, fn := range g.Fns {
-			if strings.Contains(fn, "Listen.func1") {
-				watchers = append(watchers, g)
-				break
-			}
-		}
-	}
+	// goroutines that are inside the code under test (frames matched on the package path only)
+	inside := census()
 	c.mu.Lock()
 	defer c.mu.Unlock()
 	stable = true
@@ -160,10 +158,10 @@ func (c *ctl) status() (obs string, stable bool) {
 		} else if !s.inCall {
 			st = "i"
 		} else {
-			switch states[s.gid] {
-			case "sync.RWMutex.RLock":
+			switch ws := states[s.gid]; {
+			case lockWait(ws):
 				st = "r"
-			case "select":
+			case ws == "select" || ws == "chan send":
 				st = "s"
 			default:
 				stable = false
@@ -182,28 +180,56 @@ func (c *ctl) status() (obs string, stable bool) {
 		}
 		parts = append(parts, fmt.Sprintf("S%d=%s:%s", t, st, rs))
 	}
-	// assign newly spawned watcher goroutines to the listener whose Listen is in progress
-	assigned := map[int64]bool{}
-	for _, l := range c.ls {
-		if l.wgid != 0 {
-			assigned[l.wgid] = true
-		}
+	// Internal goroutines of the bus are identified behaviourally, never by function name: a goroutine
+	// that is inside the code under test (or parked at one of its yield points) and is none of the
+	// goroutines the harness started itself is a listener's watcher; it belongs to the one listener that
+	// is still waiting for its watcher (one macro move at a time makes this unique).  A listener whose
+	// watcher goroutine does not exist (yet) is observationally "awaiting the cancel".
+	known := map[int64]bool{}
+	for _, s := range c.ss {
+		known[s.gid] = true
 	}
 	for _, l := range c.ls {
+		known[l.gid], known[l.cgid] = true, true
+		if l.wgid != 0 {
+			known[l.wgid] = true
+		}
+	}
+	var unknown []int64
+	seenU := map[int64]bool{}
+	for _, g := range inside {
+		if !known[g.ID] && !seenU[g.ID] {
+			unknown = append(unknown, g.ID)
+			seenU[g.ID] = true
+		}
+	}
+	for gid := range c.parked {
+		if !known[gid] && !seenU[gid] {
+			unknown = append(unknown, gid)
+			seenU[gid] = true
+		}
+	}
+	var need, needCancelled []*listenerT
+	for _, l := range c.ls {
 		if l.started && l.wgid == 0 {
-			var cand []int64
-			for _, w := range watchers {
-				if !assigned[w.ID] {
-					cand = append(cand, w.ID)
-				}
-			}
-			if len(cand) == 1 {
-				l.wgid = cand[0]
-				assigned[cand[0]] = true
-			} else {
-				stable = false
+			need = append(need, l)
+			if l.cancelled {
+				needCancelled = append(needCancelled, l)
 			}
 		}
+	}
+	switch {
+	case len(unknown) == 0:
+		// a cancelled listener must get a goroutine that stops it; before the cancel none is needed
+		if len(needCancelled) > 0 {
+			stable = false
+		}
+	case len(unknown) == 1 && len(need) == 1:
+		need[0].wgid = unknown[0]
+	case len(unknown) == 1 && len(needCancelled) == 1:
+		needCancelled[0].wgid = unknown[0]
+	default:
+		stable = false
 	}
 	for i, l := range c.ls {
 		lp := "-"
@@ -220,15 +246,22 @@ func (c *ctl) status() (obs string, stable bool) {
 		wp := "n"
 		if l.started {
 			if l.wgid == 0 {
-				wp = "?"
-			} else if c.parked[l.wgid] != nil {
+				wp = "a" // no goroutine (yet): nothing can happen to this listener before its cancel
+				if l.cancelled {
+					wp = "?"
+				}
+			} else if p := c.parked[l.wgid]; p != nil {
 				wp = "e"
+				if p.point != "listener.stop.enter" {
+					wp = "?"
+					stable = false
+				}
 			} else if st, alive := states[l.wgid]; !alive {
 				wp = "d"
-			} else if st == "chan receive" {
-				wp = "a"
-			} else if st == "sync.RWMutex.Lock" {
+			} else if lockWait(st) {
 				wp = "w"
+			} else if st == "chan receive" || st == "select" {
+				wp = "a"
 			} else {
 				wp = "?"
 				stable = false
